@@ -292,6 +292,9 @@ thread_local! {
 
 static PENDING_DEC: Mutex<VecDeque<Arc<Ctl>>> = Mutex::new(VecDeque::new());
 
+/// number of times a decoder thread passed the `dec.pushed` point (frames pushed to a frame ring)
+pub static DEC_PUSHED: std::sync::atomic::AtomicUsize = std::sync::atomic::AtomicUsize::new(0);
+
 /// the next kira decoder thread that reaches a `dec.*` yield point adopts `ctl`
 pub fn expect_decoder_thread(ctl: Arc<Ctl>) {
 	ctl.set_running();
@@ -304,6 +307,10 @@ pub fn cancel_pending_decoders() {
 
 pub fn install_hook() {
 	kira::verif::set_hook(Box::new(|site, tag| {
+		if site == "dec.pushed" {
+			DEC_PUSHED.fetch_add(1, std::sync::atomic::Ordering::SeqCst);
+			return;
+		}
 		unarmed(|| {
 			let ctl = CUR.with(|c| {
 				let mut c = c.borrow_mut();
